@@ -537,8 +537,11 @@ func (e *Engine) resolve(s Site, x ast.Expr, depth int, sites *[]Site) ast.Expr 
 			}
 		}
 		cs := e.values(s, v, depth+1)
-		if len(cs) == 1 && cs[0].Unknown == "" && !cs[0].Zero && cs[0].Expr != nil && (cs[0].Call == nil || cs[0].Result == 0) {
+		if len(cs) == 1 && cs[0].Unknown == "" && !cs[0].Zero && cs[0].Expr != nil {
 			*sites = append(*sites, cs[0].Sites...)
+			if cs[0].Call != nil && cs[0].Result != 0 {
+				return ResultExpr(cs[0].Expr, cs[0].Result)
+			}
 			return cs[0].Expr
 		}
 		return v
@@ -946,8 +949,14 @@ type Store struct {
 	Site
 	Stmt  ast.Node
 	LHS   *ast.SelectorExpr
-	RHS   ast.Expr // nil unless a plain 1:1 assignment
+	RHS   ast.Expr    // the assigned expression (plain 1:1 assignment) or the operand of an op-assignment; nil otherwise
+	Op    token.Token // token.ASSIGN/DEFINE for plain assignments, ADD_ASSIGN etc. for `x op= y`, INC/DEC
 	Field *types.Var
+}
+
+// Plain reports whether the store is a plain 1:1 assignment `x.f = RHS`.
+func (st Store) Plain() bool {
+	return st.RHS != nil && (st.Op == token.ASSIGN || st.Op == token.DEFINE)
 }
 
 // Stores lists the assignments to fields accepted by want inside region (a
@@ -976,8 +985,8 @@ func (e *Engine) stores(g *cfgq.Graph, region ast.Node, up []Frame, want func(*t
 				if !ok {
 					continue
 				}
-				st := Store{Site: Site{G: g, At: pt, Up: up}, Stmt: x, LHS: sel, Field: fv}
-				if len(x.Lhs) == len(x.Rhs) && (x.Tok == token.ASSIGN || x.Tok == token.DEFINE) {
+				st := Store{Site: Site{G: g, At: pt, Up: up}, Stmt: x, LHS: sel, Field: fv, Op: x.Tok}
+				if len(x.Lhs) == len(x.Rhs) {
 					st.RHS = x.Rhs[i]
 				}
 				*out = append(*out, st)
@@ -986,7 +995,7 @@ func (e *Engine) stores(g *cfgq.Graph, region ast.Node, up []Frame, want func(*t
 			if sel, ok := ast.Unparen(x.X).(*ast.SelectorExpr); ok {
 				if fv := core.FieldOf(info, sel); fv != nil && want(fv) {
 					if pt, ok := g.Find(x); ok {
-						*out = append(*out, Store{Site: Site{G: g, At: pt, Up: up}, Stmt: x, LHS: sel, Field: fv})
+						*out = append(*out, Store{Site: Site{G: g, At: pt, Up: up}, Stmt: x, LHS: sel, Field: fv, Op: x.Tok})
 					}
 				}
 			}
@@ -1170,4 +1179,68 @@ func (e *Engine) isPure(f *types.Func) bool {
 		e.pure[f] = 2
 	}
 	return ok
+}
+
+// ResultExpr is how Resolve writes "result #k of call" for k > 0: the call
+// indexed by k (not Go, but comparable structurally and by package lin).
+// Result #0 is written as the call itself.
+func ResultExpr(call ast.Expr, k int) ast.Expr {
+	if k == 0 {
+		return call
+	}
+	return &ast.IndexExpr{X: call, Index: &ast.BasicLit{Kind: token.INT, Value: string(rune('0' + k))}}
+}
+
+// IsResult reports whether the resolved expression x is result #k of a call
+// rebuilt from the original call `of` (conversions around x are ignored).
+func IsResult(info *types.Info, x ast.Expr, of *ast.CallExpr, k int) bool {
+	for {
+		x = ast.Unparen(x)
+		c, ok := x.(*ast.CallExpr)
+		if ok && len(c.Args) == 1 {
+			if tv, has := info.Types[c.Fun]; has && tv.IsType() {
+				x = c.Args[0]
+				continue
+			}
+		}
+		break
+	}
+	if k > 0 {
+		ix, ok := x.(*ast.IndexExpr)
+		if !ok {
+			return false
+		}
+		lit, ok := ix.Index.(*ast.BasicLit)
+		if !ok || lit.Value != string(rune('0'+k)) {
+			return false
+		}
+		x = ast.Unparen(ix.X)
+	}
+	c, ok := x.(*ast.CallExpr)
+	return ok && (c == of || c.Lparen == of.Lparen && c.Lparen.IsValid())
+}
+
+// Walk visits every node of region and of the bodies of the module helpers
+// called from it (same bounds as Stores/Calls), with the site of the cfg node
+// that contains it.
+func (e *Engine) Walk(g *cfgq.Graph, region ast.Node, visit func(s Site, n ast.Node)) {
+	e.walk(g, region, nil, visit)
+}
+
+func (e *Engine) walk(g *cfgq.Graph, region ast.Node, up []Frame, visit func(s Site, n ast.Node)) {
+	core.Inspect(region, func(n ast.Node) bool {
+		pt, ok := g.Find(n)
+		if !ok {
+			return true
+		}
+		s := Site{G: g, At: pt, Up: up}
+		visit(s, n)
+		if x, isCall := n.(*ast.CallExpr); isCall {
+			if fn := e.followable(s, x); fn != nil {
+				fr := e.enter(s, x, fn)
+				e.walk(cfgq.Of(e.P, fn), fn.Decl.Body, append([]Frame{fr}, up...), visit)
+			}
+		}
+		return true
+	})
 }
